@@ -307,7 +307,12 @@ class SchemaLoaderWiki(SchemaLoader):
             self._add_fatal_error(line_number, row, "Invalid or non matching <nowiki> tags found")
         elif index1 != -1 and index2 <= index1:
             self._add_fatal_error(line_number, row, "</nowiki> appears before <nowiki> on a line")
-        row = re.sub(no_wiki_tag, '', row)
+        # The tags only wrap parts of the line.  Inside the [description] they are text that has to be kept.
+        desc_start, desc_end = row.find('['), row.rfind(']')
+        if desc_start == -1 or desc_end < desc_start:
+            desc_start = desc_end = len(row)
+        row = (re.sub(no_wiki_tag, '', row[:desc_start]) + row[desc_start:desc_end]
+               + re.sub(no_wiki_tag, '', row[desc_end:]))
         return row
 
     def _get_tag_name(self, row):
